@@ -22,6 +22,10 @@ claimed = {
    text="Proof by induction over the leveragelp writers, unbounded in amounts and in the number of pools and positions: two ghost aggregates maintained by the table-write semantics (per-pool sum of the stored positions' LeveragedLpAmount, number of stored positions) and the gap contracts `pool.LeveragedLpAmount - sum` and `OpenPositionCount - count` unchanged across SetPosition/DestroyPosition (counter), ProcessOpenLong, OpenLong, OpenConsolidate, Open, ForceCloseLong (with: full close removes the row, partial close keeps exactly the rest), CloseLong, Close, CheckAndLiquidateUnhealthyPosition and CheckAndCloseAtStopLoss (on EVERY exit, since their callers swallow errors), ClosePositions, BeginBlocker, AddPool, RemovePool, UpdateStopLoss, add-collateral; row-level frames on the close helpers; a closure scan on the SSA call graph shows that every function writing the leveragelp store, and every caller of a function under contract up to the entry points, is under contract. The per-position shares-at-the-position-address clause of the statement is NOT claimed (it needs functional contracts on amm join/exit and the commitment ledger together). A genuine defect (a liquidation failing midway was committed by the callers that log the error and go on) was found by a failing obligation, reproduced on the real keeper and repaired by a fix: commit.",
    note=COMMON_NOTE + "BeginBlocker's page of positions is bounded to 2 entries and ClosePositions' two request lists to 1 entry each (labelled bounded); GetPositions' postcondition (a page of stored rows without repeats) is trusted (SDK pagination); amm JoinPoolNoSwap/ExitPool, masterchef ClaimRewards, GetPositionHealth and LpTokenPrice enter by frame-only contracts checked against the call-graph inference; `OpenPositionCount > 0 whenever a position exists` and `no row is stored above the id counter` are assumed at entry (consequences of the invariant itself and of id allocation). Genesis and migrations are outside the claim.",
    ref="§8 C08"),
+ "C10": dict(
+   text="Proof of the authorisation boundary on the real helpers, for all numeric states: leveragelp CheckAndLiquidateUnhealthyPosition attempts a close only when the health it has just computed is <= the safety factor (and otherwise leaves the bank, the position's shares and collateral and every debt principal untouched); leveragelp CheckAndCloseAtStopLoss only when the pool-share price it has just read is <= the stored stop-loss; perpetual CheckAndLiquidateUnhealthyPosition / CheckAndCloseAtStopLoss / CheckAndCloseAtTakeProfit call ForceCloseLong/Short only behind the corresponding comparison for the position's side, and a position off its stop-loss / take-profit leaves the whole state unchanged; every successful leveragelp open / consolidating re-open and perpetual ProcessOpen / OpenConsolidate stores a health strictly above the safety factor read at that moment, the health being the module's own health function evaluated at that moment; user closes look the position up under the sender's own address; `callers` clauses show the force-close and repay functions are reachable only through these gates or the owner's close.",
+   note=COMMON_NOTE + "The health, price and safety-factor values are the results of the module's own functions (GetPositionHealth is checked to move no principal; perpetual GetMTPHealth, settlement and close helpers enter through frame contracts checked against the call-graph inference, with every pointer parameter listed and the identity fields of an MTP shown never reassigned by a store scan). That those health functions compute the economically right number is not part of this check. Nil decimals are not modelled (IsNil is false).",
+   ref="§8 C10"),
  "C12": dict(
    text="Proof, with the per-account ledger collections bounded to 2 entries x 2 lock-ups in the type-level obligations (labelled bounded in the evidence) and unbounded at keeper level: AddCommittedTokens/DeductFromCommitted/GetCommittedAmountForDenom against the ledger spec functions (exact committed delta, lock-up recorded, lock respected unless liquidation, no overdraw); CommitLiquidTokens/UncommitTokens keep Params.TotalCommitted - Σ committed, the account delta, and module custody - Σ committed - Σ claimed exactly, for every denom except Eden/EdenB (whose hooks enter the SDK). One genuine defect is recorded as a known finding (UncommitTokens adds to TotalCommitted).",
    note=COMMON_NOTE + "CommitmentChanged hook frame is checked against the estaking implementation; other commitment hooks are read as arbitrary state change. Eden/EdenB paths are not claimed.",
